@@ -420,7 +420,7 @@ pub fn run(tier: Tier, seed: u64) -> Report {
         let xi = ((i / PROBES.len() as u64) % nv) as usize;
         let yi = ((i / PROBES.len() as u64 / nv) % ny) as usize;
         // y matters only for the two-parameter probes
-        if yi > 0 && !matches!(PROBES[kind], "sum_of_two_parameters_in_ada" | "difference_of_parameters_in_token" | "two_token_terms_summed" | "two_mint_blocks_and_a_burn" | "two_burn_blocks_and_a_mint") {
+        if yi > 0 && !matches!(PROBES[kind], "sum_of_two_parameters_in_ada" | "difference_of_parameters_in_token" | "two_token_terms_summed" | "two_mint_blocks_and_a_burn" | "two_burn_blocks_and_a_mint" | "metadata_from_slot_to_time_plus_parameter" | "token_terms_subtracted_from_a_value_without_them" | "lovelace_terms_subtracted_from_nothing") {
             return Ok(());
         }
         let case = probe(kind, &vals[xi], &y_vals[yi]);
